@@ -1,4 +1,5 @@
 """C04 — cancel() suppresses the whole trace and nothing else."""
+import known as K
 import seqcheck
 import seqrun
 from props import c09
@@ -9,7 +10,8 @@ def knobs(r, i):
 
 
 def run(v, tier, seed, replay):
-    cases, impl, model = seqcheck.run(v, tier, seed, replay, "C04", ["C04"], tree_oracles=["no_panic", "exactly_once", "tree", "attachments", "retained"], knobs=knobs,
+    cases, impl, model = seqcheck.run(v, tier, seed, replay, "C04", ["C04"], tree_oracles=["no_panic", "exactly_once", "tree", "attachments", "retained"], knobs=knobs, known=K.d14_known("C04"),
+                 extra_cases=lambda r: [K.d14_case("C04", ["no_panic", "exactly_once"])],
                  n_quick=(600, 100), n_thorough=(60000, 5000),
                  assumptions=["queue-full episodes around cancel/finish are exercised in the C09 tier (forced commands FIFO, D2 fix)",
                               "a thread exiting with parked commands and a full queue can lose the drop (open finding D3); a start drained after its drop re-creates the entry (open finding D4)"])
